@@ -209,6 +209,15 @@ def run(ctx, rep):
                     continue
                 found.add(key)
                 site = fn.site(b.tloc or "")
+                if key not in listed and kind == "constant":
+                    # the same rejection under another local name / in a helper of the same class (`const int
+                    # depth = mp.level; if (depth > kMax)`): entries are matched by comparison and constant
+                    tail = what.split(" ", 1)[1] if " " in what else what
+                    for k2 in listed:
+                        if k2[1] == "constant" and " " in k2[2] and k2[2].split(" ", 1)[1] == tail:
+                            found.add(k2)
+                            key = k2
+                            break
                 if key in listed:
                     r = listed[key]
                     if r.get("fails_on_fields") is not None:
